@@ -63,6 +63,91 @@ def _ws_flexible(pattern_text):
     return r"\s*".join(parts)
 
 
+# ---------------------------------------------------------------------------------------------------------------
+# Pattern-based rewrite rules (syntax-directed, applied to every occurrence inside the extracted item; zero
+# occurrences is fine - a rule is a statement about a syntactic FORM Verus cannot take, not about particular text,
+# so an edit of the code never makes a rule "not found").  Each application is logged.
+IDENT = r"[A-Za-z_][A-Za-z0-9_]*"
+
+
+def _rule_R1(text, args):
+    # x /= e;  ->  x = x / (e);      x %= e; likewise   (Verus: compound div/mod on signed ints unsupported)
+    rx = re.compile(r"(?P<lhs>" + IDENT + r"(?:\s*\.\s*(?:" + IDENT + r"|\d+))*)\s*(?P<op>[/%])=\s*(?P<rhs>[^;{}]+);")
+    return rx.subn(lambda m: "%s = %s %s (%s);" % (m.group("lhs"), m.group("lhs"), m.group("op"), m.group("rhs").strip()), text)
+
+
+def _rule_R4(text, args):
+    # for p in &mut E {   ->   index loop header; body verbatim (not applicable if the body `continue`s: checked by Verus
+    # through the invariant at continue)
+    name = args[0] if args else "vi__"
+    rx = re.compile(r"for\s+(?P<pat>" + IDENT + r")\s+in\s+&mut\s+(?P<e>[^{]+?)\s*\{")
+    return rx.subn(lambda m: "let mut %s: usize = 0; while %s < (%s).len() /*@loophead*/ { %s += 1; let %s = &mut (%s)[%s - 1];" % (
+        name, name, m.group("e"), name, m.group("pat"), m.group("e"), name), text)
+
+
+def _rule_R4rev(text, args):
+    name = args[0] if args else "ri__"
+    rx = re.compile(r"for\s+(?P<pat>" + IDENT + r")\s+in\s+(?P<e>" + IDENT + r"(?:\." + IDENT + r")*)\.iter\(\)\.rev\(\)\s*\{")
+    return rx.subn(lambda m: "let mut %s: usize = (%s).len(); while %s > 0 /*@loophead*/ { %s -= 1; let %s = &(%s)[%s];" % (
+        name, m.group("e"), name, name, m.group("pat"), m.group("e"), name), text)
+
+
+def _rule_R11(text, args):
+    # for p in a..b {  ->  for p in it: a..b {     (names Verus's ghost iterator so invariants can mention it)
+    name = args[0] if args else "it"
+    rx = re.compile(r"for\s+(?P<pat>_|" + IDENT + r")\s+in\s+(?P<r>[^{:]*?\.\.[^{]*?)\s*\{")
+    return rx.subn(lambda m: "for %s in %s: %s /*@loophead*/ {" % (m.group("pat"), name, m.group("r")), text)
+
+
+def _rule_R8(text, args):
+    # let mut x = <integer literal>;  ->  let mut x: T = <literal>;   args: x:T ...
+    n = 0
+    for a in args:
+        var, _, ty = a.partition(":")
+        rx = re.compile(r"let\s+mut\s+" + re.escape(var) + r"\s*=\s*(?P<v>-?[0-9][0-9_a-zA-Z]*)\s*;")
+        text, k = rx.subn(lambda m: "let mut %s: %s = %s;" % (var, ty, m.group("v")), text)
+        n += k
+    return text, n
+
+
+def _rule_R7(text, args):
+    # debug_assert!(e) / assert!(e) are kept as obligations: vassert(e) has `requires e`
+    rx = re.compile(r"\b(debug_assert|assert)!\s*\(")
+    return rx.subn("vassert(", text)
+
+
+def _rule_R9(text, args):
+    # for (k, v) in m.into_iter() {  ->  take-any-until-empty loop over a trusted stub (consuming HashMap iteration)
+    rx = re.compile(r"for\s+\(\s*(?P<k>" + IDENT + r")\s*,\s*(?P<v>" + IDENT + r")\s*\)\s+in\s+(?P<m>" + IDENT + r")\.into_iter\(\)\s*\{")
+    return rx.subn(lambda m: "let mut %s = %s; while let Some((%s, %s)) = vstub_take_any(&mut %s) /*@loophead*/ {" % (
+        m.group("m"), m.group("m"), m.group("k"), m.group("v"), m.group("m")), text)
+
+
+def _rule_R12(text, args):
+    # let [a, b, c] = E;  ->  let arr__ = E; let a = arr__[0]; ...   (Verus: slice/array patterns unsupported)
+    rx = re.compile(r"let\s+\[(?P<names>[^\]]+)\]\s*=\s*(?P<e>[^;]+);")
+    cnt = [0]
+
+    def rep(m):
+        cnt[0] += 1
+        names = [x.strip() for x in m.group("names").split(",")]
+        arr = "arr__%d" % cnt[0]
+        return "let %s = %s; " % (arr, m.group("e").strip()) + " ".join("let %s = %s[%d];" % (nm, arr, i) for i, nm in enumerate(names))
+    return rx.subn(rep, text)
+
+
+def _rule_R13(text, args):
+    # E.to_be_bytes() on an i32  ->  vstub_i32_to_be_bytes(E)  (trusted wrapper: assume_specification cannot name the
+    # const-generic return type)
+    ty = args[0] if args else "i32"
+    rx = re.compile(r"(?P<e>" + IDENT + r"(?:\s*\.\s*(?:" + IDENT + r"|\d+))*)\s*\.\s*to_be_bytes\(\)")
+    return rx.subn(lambda m: "vstub_%s_to_be_bytes(%s)" % (ty, m.group("e")), text)
+
+
+RULES = {"R13": _rule_R13, "R1": _rule_R1, "R4": _rule_R4, "R4rev": _rule_R4rev, "R11": _rule_R11, "R8": _rule_R8, "R7": _rule_R7,
+         "R9": _rule_R9, "R12": _rule_R12}
+
+
 def _filter_attrs(attrs_text, derive_allow):
     out = []
     for m in re.finditer(r"#\[derive\(([^)]*)\)\]", attrs_text):
@@ -380,6 +465,7 @@ def assemble(unit_path):
         rel, path = comps[0], comps[1:]
         opts = {}
         rewrites = []
+        rules = []
         spec = ""
         loops_spec = {}
         hints = []
@@ -412,6 +498,11 @@ def assemble(unit_path):
                 for kv in s2[len("//@opt"):].split():
                     k, _, v = kv.partition("=")
                     opts[k] = v
+            elif s2.startswith("//@rule"):
+                parts = s2[len("//@rule"):].split()
+                if not parts or parts[0] not in RULES:
+                    raise UnitError("%s:%d: unknown rule %s" % (unit_path, i + 1, s2))
+                rules.append((parts[0], parts[1:]))
             elif s2.startswith("//@rewrite"):
                 rest = s2[len("//@rewrite"):].strip()
                 rule, _, rest2 = rest.partition(" ")
@@ -456,7 +547,11 @@ def assemble(unit_path):
         if opts.get("addderive"):
             # derives that exist only for the verifier (e.g. vstd's `Structural`: derived == is structural equality)
             attrs += "#[derive(%s)]\n" % opts["addderive"]
-        # rewrites
+        # pattern rules (zero occurrences allowed)
+        for rname, rargs in rules:
+            text, n_occ = RULES[rname](text, rargs)
+            log.rewrites.append({"item": what, "rule": rname, "args": rargs, "occurrences": n_occ})
+        # exact-text rewrites (must be found)
         for rule, a, b in rewrites:
             rx = re.compile(_ws_flexible(a))
             if not rx.search(text):
